@@ -257,6 +257,10 @@ class Explorer:
             if cond:
                 self.discharged += 1
                 return True
+            if not self.feasible():
+                self.obligations -= 1
+                self.reached -= 1
+                raise PathAbort()
             self._record_failure(True, label, detail)
             return False
         cond = z3.simplify(cond)
@@ -278,6 +282,8 @@ class Explorer:
 
     def fail(self, label, detail=None, exc=None):
         """The current path itself is a violation (e.g. a forbidden exception escaped)."""
+        if not self.feasible():
+            raise PathAbort()
         self.obligations += 1
         self.reached += 1
         self._record_failure(True, label, detail, exc=exc)
@@ -313,8 +319,12 @@ class Explorer:
                 self._fresh = itertools.count()
                 self.solver.push()
                 _CUR = self
+                snap = (self.obligations, self.discharged, self.symbolic_obligations, self.reached, dict(self.outcomes))
                 try:
                     fn(self)
+                    if not self.feasible():      # assumptions turned out unsatisfiable: not a path
+                        (self.obligations, self.discharged, self.symbolic_obligations, self.reached, self.outcomes) = snap
+                        raise PathAbort()
                     self.paths += 1
                 except PathAbort:
                     self.aborted += 1
